@@ -238,7 +238,7 @@ def c15_stage(v, scr, th):
 
 def check_c15(tier, replay):
     inv = ["C15_NoLeak", "C15_NoLeak_BacklogSession", "C15_PoolOwnership", "C13_AfterClose"]
-    return generic_sess_check("C15", tier, replay, "model_checking", inv, "TestSessTransfer$|TestSessCloseRace$", ("sess_transfer", "sess_closerace"),
+    return generic_sess_check("C15", tier, replay, "model_checking", inv, "TestSessTransfer$|TestSessCloseRace$|TestSessDeadLink$", ("sess_transfer", "sess_closerace", "sess_deadlink"),
                               dict(SESS_RUNS=200, SESS_CLOSEMID=1), dict(SESS_RUNS=2500, SESS_CLOSEMID=1),
                               RULE_TRANSFER + "; every run ends by closing client, accepted session, listener and transport in a seeded order "
                               "(half of the runs in the middle of the transfer); 12 virtual seconds later no goroutine with a kcp-go frame "
@@ -248,7 +248,9 @@ def check_c15(tier, replay):
                               "the transports start failing writes shortly before; every fifth run uses sessions / listeners that own their transport; "
                               "forced interleaving (the input hook as a scheduler gate): a datagram that has passed the receive loop's closed-check "
                               "waits at the entry of kcpInput while Close of that session runs to completion, then is processed (lossy FEC traffic: "
-                              "the decoder holds shards)",
+                              "the decoder holds shards); Close after a long silence: the peer goes away with data unacknowledged, the session idles for "
+                              "4 / 45 / 90 virtual minutes (far past the dead-link threshold of 20 transmissions), then is closed -- dialled sessions "
+                              "that own their transport are not helped by the application closing the socket",
                               SESS_ASSUME + ["buffers still owned when a session is dropped are left to the garbage collector (not an ownership violation)"],
                               mc_cfgs=(("Lifecycle", "Lifecycle_mc.cfg"), ("Lifecycle", "Lifecycle_mc_owned.cfg")), extra_stage=c15_stage)
 
